@@ -993,8 +993,8 @@ theorem derived_accessors_read_wall_clock (z : Zoned) (hz : ZInv z) :
       dayNumYo y o = EPOCH_DAY + wallSecs z / 86400 ∧
       Zoned.month0 z = .ok ((monthOfYo y o : Int) - 1) ∧ Zoned.day0 z = .ok ((dayOfYo y o : Int) - 1) ∧
       Zoned.ordinal0 z = .ok ((o : Int) - 1) ∧
-      Zoned.quarter z = .ok (((monthOfYo y o : Int) - 1) / 3 + 1) ∧
-      Zoned.year_ce z = .ok (if y < 1 then (false, 1 - y) else (true, y)) ∧
+      Zoned.quarter_v z = .ok (((monthOfYo y o : Int) - 1) / 3 + 1) ∧
+      Zoned.year_ce_v z = .ok (if y < 1 then (false, 1 - y) else (true, y)) ∧
       Zoned.hour12 z = .ok (decide (wallSecs z % 86400 / 3600 ≥ 12),
         if wallSecs z % 86400 / 3600 % 12 = 0 then 12 else wallSecs z % 86400 / 3600 % 12) ∧
       Zoned.num_seconds_from_midnight z = .ok (wallSecs z % 86400) := by
@@ -1029,9 +1029,9 @@ theorem derived_accessors_read_wall_clock (z : Zoned) (hz : ZInv z) :
 /-- non-vacuity on the headroom readings: Dec 31 of year −262144 (year_ce: 262145 BCE), 23:00 -/
 example :
     Zoned.month0 ⟨NaiveDT.MIN, -3600⟩ = .ok 11 ∧ Zoned.day0 ⟨NaiveDT.MIN, -3600⟩ = .ok 30 ∧
-    Zoned.ordinal0 ⟨NaiveDT.MIN, -3600⟩ = .ok 365 ∧ Zoned.quarter ⟨NaiveDT.MIN, -3600⟩ = .ok 4 ∧
-    Zoned.year_ce ⟨NaiveDT.MIN, -3600⟩ = .ok (false, 262145) ∧
-    Zoned.year_ce ⟨NaiveDT.MAX, 3600⟩ = .ok (true, 262143) ∧
+    Zoned.ordinal0 ⟨NaiveDT.MIN, -3600⟩ = .ok 365 ∧ Zoned.quarter_v ⟨NaiveDT.MIN, -3600⟩ = .ok 4 ∧
+    Zoned.year_ce_v ⟨NaiveDT.MIN, -3600⟩ = .ok (false, 262145) ∧
+    Zoned.year_ce_v ⟨NaiveDT.MAX, 3600⟩ = .ok (true, 262143) ∧
     Zoned.hour12 ⟨NaiveDT.MIN, -3600⟩ = .ok (true, 11) ∧ Zoned.hour12 ⟨NaiveDT.MAX, 3600⟩ = .ok (false, 12) ∧
     Zoned.num_seconds_from_midnight ⟨NaiveDT.MIN, -3600⟩ = .ok 82800 := by decide +kernel
 
